@@ -242,6 +242,55 @@ def bounded(tier, seed):
                     violations.append(dict(key='set_attribute_single %s[%d] with %d bytes' % (ttype, n, nbytes),
                                            observed='status %r tag %r' % (d.status, after),
                                            required='exact byte count stores the values; any other count is refused and leaves the tag (and its length) unchanged'))
+    # on the wire (reference-encoded frames through the real parser and server over TCP): values at the top of every unsigned range stay
+    # readable after an acknowledged write; an element index beyond 2^31 is refused also when a fragment offset is given
+    import struct
+    from . import wire
+    from .C06 import raw_session
+    wtags = {'US': ('USINT', 2), 'UI': ('UINT', 2), 'UD': ('UDINT', 2), 'UL': ('ULINT', 2), 'A': ('INT', 10)}
+    tops = (('US', 0xc6, 0xff, 1), ('UI', 0xc7, 0xffff, 2), ('UD', 0xc8, 0xffffffff, 4), ('UL', 0xc9, 0xffffffffffffffff, 8),
+            ('UD', 0xc8, 0x80000000, 4), ('UL', 0xc9, 0x8000000000000000, 8))
+    for name, code, top, siz in tops:
+        ev += 1
+        distinct.add(('wire-top', name, top))
+        frames = [wire.register(),
+                  wire.send_rr_data(wire.write_tag(name, 1, code, [top]), session=0, context=b'WRITE---', route=False),
+                  wire.send_rr_data(wire.read_tag(name, 1, 1), session=0, context=b'READ----', route=False),
+                  wire.send_rr_data(wire.read_tag(name, 0, 2), session=0, context=b'READ2---', route=False)]
+        try:
+            replies, rest = raw_session(frames, wtags)
+            cips = [wire.reply_cip(f) for f in replies]
+            obs = [(c[2], bytes(c[4] or b'').hex()) for c in cips[1:]]
+            want_val = struct.pack(wire.TYPE_FMT[code], top)
+            ok = (len(replies) == 4 and all(c[2] == 0 for c in cips)
+                  and cips[1][4][:4] == bytes([0xcd, 0, 0, 0])
+                  and cips[2][4] == bytes([0xcc, 0, 0, 0]) + struct.pack('<H', code) + want_val
+                  and cips[3][4] == bytes([0xcc, 0, 0, 0]) + struct.pack('<H', code) + struct.pack(wire.TYPE_FMT[code], 0) + want_val)
+        except Exception as e:
+            ok, obs = False, 'raised %s: %s' % (type(e).__name__, e)
+        if not ok and len(violations) < 8:
+            violations.append(dict(key='wire: write %s[1] = 0x%x then read it' % (name, top), observed=repr(obs)[:300],
+                                   required='the write is acknowledged and both reads return the value written (one reply per request, session stays up)'))
+    for svc, mk in (('read_frag', lambda: wire.read_frag('A', 0xffffffff, 4, 2)),
+                    ('write_frag', lambda: wire.write_frag('A', 0xffffffff, 0xc3, 4, 2, [9, 9])),
+                    ('read_frag', lambda: wire.read_frag('A', 0xfffffffe, 6, 4))):
+        ev += 1
+        distinct.add(('wire-index', svc))
+        frames = [wire.register(), wire.send_rr_data(wire.write_tag('A', 0, 0xc3, [1, 2, 3, 4]), session=0, context=b'SETUP---', route=False),
+                  wire.send_rr_data(mk(), session=0, context=b'PROBE---', route=True),     # (0x52 is also the Unconnected Send code: a fragmented read travels wrapped)
+                  wire.send_rr_data(wire.read_tag('A', 0, 4), session=0, context=b'CHECK---', route=False)]
+        try:
+            replies, rest = raw_session(frames, wtags)
+            cips = [wire.reply_cip(f) for f in replies]
+            probe, check = cips[2], cips[3]
+            obs = [(c[2], bytes(c[4] or b'').hex()) for c in cips[1:]]
+            ok = (len(replies) == 4 and probe[2] == 0 and probe[4][2] not in (0x00, 0x06)
+                  and check[4] == bytes([0xcc, 0, 0, 0]) + struct.pack('<H', 0xc3) + struct.pack('<4h', 1, 2, 3, 4))
+        except Exception as e:
+            ok, obs = False, 'raised %s: %s' % (type(e).__name__, e)
+        if not ok and len(violations) < 8:
+            violations.append(dict(key='wire: %s of A[4294967295] with a byte offset' % svc, observed=repr(obs)[:300],
+                                   required='refused with a CIP error status, nothing read or written, the tag keeps [1, 2, 3, 4]'))
     return dict(evaluations=ev, distinct_nontrivial=len(distinct), distinct_keys=distinct_keys(distinct),
                 rule='seeded request histories per tag type on two array tags: index in {0,1,len-1,len,len+1,random}, count in '
                      '{0,1,2,rest,rest+1,len,len+1}, every request type incl. widest values into narrower tags; after each request all '
